@@ -1086,6 +1086,11 @@ class ChannelFileWrite(ChannelFile):
         pass
 
 
+def _newline(data: str | bytes) -> Any:
+    """Return the line terminator of the type of ``data`` (items may be str or bytes)."""
+    return b"\n" if isinstance(data, bytes) else "\n"
+
+
 class ChannelFileRead(ChannelFile):
     def __init__(self, channel: Channel, proxyclose: bool = True) -> None:
         super().__init__(channel, proxyclose)
@@ -1108,13 +1113,13 @@ class ChannelFileRead(ChannelFile):
 
     def readline(self) -> str:
         if self._buffer is not None:
-            i = self._buffer.find("\n")
+            i = self._buffer.find(_newline(self._buffer))
             if i != -1:
                 return self.read(i + 1)
             line = self.read(len(self._buffer) + 1)
         else:
             line = self.read(1)
-        while line and line[-1] != "\n":
+        while line and not line.endswith(_newline(line)):
             c = self.read(1)
             if not c:
                 break
